@@ -27,7 +27,8 @@ ASSUMPTIONS = [
 ]
 REQUIRED_LABELS = {t: ["clients>=8", "overlap-in-flight", "link-faults", "req:advance", "req:sign_auth",
                        "req:sign_unauth", "req:state", "req:signerHb", "req:getPubKey",
-                       "stop-path:hb-malformed-der", "stop-path:reconnect-into-ui-heartbeat"]
+                       "stop-path:hb-malformed-der", "stop-path:reconnect-into-ui-heartbeat",
+                       "slow-client:Ledger", "slow-client:TCP", "slow-client:SGX"]
                    for t in ("quick", "thorough")}
 KINDS = ["sign_unauth", "sign_auth", "advance", "state", "signerHb", "getPubKey"]
 T = mw.nominal_requests()
@@ -67,6 +68,7 @@ def make_request(kind, rid, ci, j):
 
 
 def run_case(c):
+    socket.setdefaulttimeout(None)      # no process-wide socket state carried between cases
     w = mw.default_world()
     w.adv_plan = {"final": "total"}
     cur = threading.local()
@@ -312,6 +314,64 @@ def bind_list_cases(tier, seed):
                          for i in range(n)]} for n in (4, 8)]
 
 
+def slow_client_cases(tier, seed):
+    """A client that takes its time between connecting and sending (longer than any time-out
+    the manager uses towards the DEVICE), on each kind of device link."""
+    return [{"platform": plat, "wait_s": 11.5, "kind": k}
+            for plat, k in (("Ledger", "getPubKey"), ("TCP", "sign_unauth"), ("SGX", "state"))]
+
+
+def run_slow_client(c):
+    import ledger.hsm2dongle as hd
+    from ledger.hsm2dongle_tcp import HSM2DongleTCP
+    from sgx.hsm2dongle import HSM2DongleSGX
+    from ledger.protocol import HSM2ProtocolLedger
+    from comm.platform import Platform
+    from checks.c03 import _free_server
+    socket.setdefaulttimeout(None)
+    w = mw.default_world()
+    w.adv_plan = {"final": "total"}
+    w.sig_der = refs.der_sig(b"\x11" * 20, b"\x22" * 20)
+    mw.install(w)
+    plat = c["platform"]
+    Platform.set({"Ledger": Platform.LEDGER, "SGX": Platform.SGX, "TCP": Platform.X86}[plat])
+    try:
+        dongle = {"Ledger": lambda: hd.HSM2Dongle(False),
+                  "TCP": lambda: HSM2DongleTCP("h", 1, False),
+                  "SGX": lambda: HSM2DongleSGX("h", 1, False)}[plat]()
+        p = HSM2ProtocolLedger(None, dongle)
+        srv, t, result, port = _free_server(p)
+        try:
+            req = make_request(c["kind"], "0.0", 7, 9)
+            s = socket.create_connection(("127.0.0.1", port), timeout=60)
+            s.settimeout(60)
+            try:
+                time.sleep(c["wait_s"])
+                try:
+                    s.sendall(json.dumps(req).encode() + b"\n")
+                    reply = s.makefile("rb").readline()
+                except OSError as e:
+                    reply = b""
+            finally:
+                s.close()
+            rep = mw.parse_reply(reply)
+            if rep is None or rep["errorcode"] != 0:
+                raise Violation("slow-client-not-answered", "%s link: a client that sent its "
+                                "request %.1f s after connecting got %r" % (
+                                    plat, c["wait_s"], reply[:100]))
+        finally:
+            try:
+                srv.server.shutdown()
+            except Exception:
+                pass
+            t.join(timeout=5)
+    finally:
+        Platform.set(Platform.LEDGER)
+        socket.setdefaulttimeout(None)
+    mw.check_sim(w)
+    return Out(["slow-client:" + plat], True)
+
+
 def stop_path_cases(tier, seed):
     return [{"first": k, "fatal": f} for k in ("sign_unauth", "getPubKey", "state")
             for f in ("hb-malformed-der", "reconnect-into-ui-heartbeat")]
@@ -404,6 +464,9 @@ def stages(tier):
             EnumStage("bind-list", bind_list_cases, run_case,
                       exhaustive={"quick": True, "thorough": True},
                       budget_s={"quick": 60, "thorough": 60}, workers=2),
+            EnumStage("slow-client", slow_client_cases, run_slow_client,
+                      exhaustive={"quick": True, "thorough": True},
+                      budget_s={"quick": 90, "thorough": 90}, workers=3),
             EnumStage("slow-device", stall_cases, run_case,
                       exhaustive={"quick": True, "thorough": True},
                       budget_s={"quick": 120, "thorough": 120}, workers=2),
